@@ -37,7 +37,8 @@ static bool was_freed(const void* p) { for (int i = 0; i < 4; i++) if (i < n_fre
 
 static char src[48];
 
-// PRE: 0 = small (embedded, LEN <= 30), 1 = heap buffer of capacity 15. OP: 0 = assign(src, N), 1 = append(src, N), 2 = append_chars(c, N).
+// PRE: 0 = small (embedded, LEN <= 30), 1 = heap buffer of capacity 15. OP: 0 = assign(src, N), 1 = append(src, N), 2 = append_chars(c, N),
+// 3 = assign_chars(c, N) (the kAssign branch of String::prepare, shared by assign_format / assign_hex / assign_int).
 // LEN, N constants such that the operation must grow the string; contents symbolic.
 template<int PRE, int OP, unsigned LEN, unsigned N> static void string_case() {
   String s;
@@ -61,6 +62,7 @@ template<int PRE, int OP, unsigned LEN, unsigned N> static void string_case() {
   auto run = [&]() -> Error {
     if (OP == 0) return s.assign(src, N);
     if (OP == 1) return s.append(src, N);
+    if (OP == 3) return s.assign_chars(fill, N);
     return s.append_chars(fill, N);
   };
   Error e1 = run();
@@ -83,11 +85,11 @@ template<int PRE, int OP, unsigned LEN, unsigned N> static void string_case() {
   }
   may_fail = false;
   // final state: the right content in a new heap buffer; the old heap buffer released exactly once
-  unsigned keep = OP == 0 ? 0 : LEN;
+  unsigned keep = (OP == 0 || OP == 3) ? 0 : LEN;
   V_ASSERT(s.size() == keep + N && s.is_large_or_external() && s.data() != data_before && s.data()[keep + N] == 0, "final: grown into a new heap buffer, terminated");
   bool okc = true;
   for (unsigned i = 0; i < keep; i++) okc = okc && s.data()[i] == old[i];
-  for (unsigned i = 0; i < N; i++) okc = okc && s.data()[keep + i] == (OP == 2 ? fill : src[i]);
+  for (unsigned i = 0; i < N; i++) okc = okc && s.data()[keep + i] == (OP >= 2 ? fill : src[i]);
   V_ASSERT(okc, "final: content is the old content (append) followed by the new characters");
   V_ASSERT(n_free == (PRE == 1 ? 1 : 0) && (PRE != 1 || freed[0] == data_before), "final: the old heap buffer was released exactly once, nothing else");
   V_ASSERT(!was_freed(s.data()), "final: the live buffer was not released");
@@ -98,3 +100,5 @@ HARNESS h_c15_string_assign_heap() { string_case<1, 0, 9, 40>(); }
 HARNESS h_c15_string_assign_small() { string_case<0, 0, 9, 40>(); }
 HARNESS h_c15_string_append_heap() { string_case<1, 1, 9, 24>(); }
 HARNESS h_c15_string_append_chars_heap() { string_case<1, 2, 12, 8>(); }
+HARNESS h_c15_string_assign_chars_heap() { string_case<1, 3, 9, 40>(); }
+HARNESS h_c15_string_assign_chars_small() { string_case<0, 3, 9, 40>(); }
